@@ -1,5 +1,6 @@
 import PallasVerif.Stream
 import PallasVerif.Model.ChunkReader
+import PallasVerif.Model.ImmutableDbFiles
 /-! stream `immcorrupt`: `chunk <label> <primary> <secondary> <chunk> [blocks…]` gives the bytes of the
     three files of one chunk; the reply lists what the chunk reader yields. `dbread` ops are judged
     by the harness oracle only and reply `done`. -/
@@ -16,17 +17,119 @@ def showItem : BlockItem Nat → String
   | .readErr => "E:read"
   | .indexErr => "E:index"
 
-def step (u : Unit) : List String → Unit × String
+/-! ## `dbx`: a whole database given as files; chunk bytes are symbolic (`block index * 2^24 + offset`) -/
+open PallasVerif.ImmutableDb PallasVerif.ImmutableDbFiles
+
+abbrev Blk := Block String
+
+structure Db where
+  files : List (ChunkFiles Nat)
+  /-- global block table: (length, block) -/
+  table : List (Nat × Blk)
+
+def symBase : Nat := 16777216
+
+/-- `MultiEraBlock::decode` on a slice of a chunk file: the slice starts at the first byte of a block
+    and holds all of it (bytes after the block are not looked at); anything else does not decode -/
+def decodeSym (table : List (Nat × Blk)) (slice : List Nat) : Option Blk :=
+  match slice with
+  | [] => none
+  | s0 :: _ =>
+    if s0 % symBase = 0 then
+      match table[s0 / symBase]? with
+      | some (len, b) => if len ≤ slice.length then some b else none
+      | none => none
+    else none
+
+def blk? (s : String) : Option Blk :=
+  match s.splitOn ":" with
+  | [a, h] => (Tok.nat? a).map (fun a => { slot := a, hash := h })
+  | _ => none
+
+/-- `nb` × (`len` `slot:hash`) -/
+def blocks? : Nat → List String → Option (List (Nat × Blk) × List String)
+  | 0, r => some ([], r)
+  | n + 1, len :: b :: r =>
+    match Tok.nat? len, blk? b, blocks? n r with
+    | some len, some b, some (bs, r') => some ((len, b) :: bs, r')
+    | _, _, _ => none
+  | _, _ => none
+
+def symsOf (base : Nat) : List (Nat × Blk) → List Nat
+  | [] => []
+  | (len, _) :: t => (List.range len).map (fun j => base * symBase + j) ++ symsOf (base + 1) t
+
+/-- `k` × (`P` `S` `clen` `nb` blocks…) -/
+def chunks? : Nat → Nat → List String → Option (List (ChunkFiles Nat) × List (Nat × Blk))
+  | 0, _, [] => some ([], [])
+  | 0, _, _ => none
+  | k + 1, base, p :: s :: clen :: nb :: r =>
+    match bytes? p, bytes? s, Tok.nat? clen, Tok.nat? nb with
+    | some p, some s, some clen, some nb =>
+      match blocks? nb r with
+      | some (bs, r') =>
+        match chunks? k (base + nb) r' with
+        | some (fs, tbl) => some ({ primary := p, secondary := s, chunk := (symsOf base bs).take clen } :: fs, bs ++ tbl)
+        | none => none
+      | none => none
+    | _, _, _, _ => none
+  | _, _, _ => none
+
+def hashPrefix (h : String) : Nat := (h.toList.take 8).foldl (fun acc c => acc * 16 + (Tok.hexVal c).getD 0) 0
+def showBlk (b : Blk) : String := toString b.slot ++ ":" ++ b.hash
+def digest (bs : List Blk) : String :=
+  let f := bs.foldl (fun acc b => (acc * 33 + b.slot + hashPrefix b.hash) % 4294967296) 0
+  match bs.head?, bs.getLast? with
+  | some a, some z => toString bs.length ++ " " ++ toString f ++ " " ++ showBlk a ++ " " ++ showBlk z
+  | _, _ => "0 0"
+
+def collect : List (Item String) → Except String (List Blk)
+  | [] => .ok []
+  | .blk b :: t => match collect t with
+    | .ok bs => .ok (b :: bs)
+    | .error e => .error e
+  | .readErr :: _ => .error "read"
+  | .garbage :: _ => .error "decode"
+
+def showErrDb : ImmutableDb.Err → String
+  | .cannotFind => "notfound" | .decode => "decode" | .read => "read" | .originMissing => "origin"
+
+def replyItems : ImmutableDb.Res (List (Item String)) → String
+  | .ok items => match collect items with
+    | .ok bs => "ok " ++ digest bs
+    | .error e => "err " ++ e
+  | .err e => "err " ++ showErrDb e
+  | .panic => "panic"
+
+def step (db : Db) : List String → Db × String
   | "chunk" :: _ :: p :: s :: c :: _ =>
     match bytes? p, bytes? s, bytes? c with
     | some p, some s, some c =>
-      (u, match readChunk p s c with
+      (db, match readChunk p s c with
         | none => "err open"
         | some items => "ok " ++ Tok.showList showItem items)
-    | _, _, _ => (u, "bad-op")
-  | "dbread" :: _ => (u, "done")
-  | _ => (u, "bad-op")
+    | _, _, _ => (db, "bad-op")
+  | "dbread" :: _ => (db, "done")
+  | "dbx" :: _ :: k :: rest =>
+    match Tok.nat? k with
+    | some k =>
+      match chunks? k 0 rest with
+      | some (files, table) => ({ files, table }, "ok " ++ toString files.length ++ " " ++ toString table.length)
+      | none => (db, "bad-op")
+    | none => (db, "bad-op")
+  | ["xreadall"] => (db, replyItems (.ok (ImmutableDbFiles.readBlocks (decodeSym db.table) db.files)))
+  | ["xtip"] =>
+    (db, match ImmutableDbFiles.getTip (decodeSym db.table) db.files with
+      | .ok none => "ok none"
+      | .ok (some b) => "ok some " ++ showBlk b
+      | .err e => "err " ++ showErrDb e
+      | .panic => "panic")
+  | ["xfrom", s, h] =>
+    match Tok.nat? s with
+    | some s => (db, replyItems (ImmutableDbFiles.readBlocksFromPoint (decodeSym db.table) db.files s (if h = "-" then none else some h)))
+    | none => (db, "bad-op")
+  | _ => (db, "bad-op")
 
-def stream : Stream := { name := "immcorrupt", σ := Unit, init := (), step := step }
+def stream : Stream := { name := "immcorrupt", σ := Db, init := { files := [], table := [] }, step := step }
 
 end PallasVerif.Streams.ImmCorrupt
